@@ -696,7 +696,7 @@ impl PropImpl for C15 {
         vec!["empty lists and a licence without a short name are not 'valid values' of Uploaders-like fields / DEP-5 Files paragraphs".into(), "getters that unwrap a parse are exercised with valid stored values only".into()]
     }
     fn budget(&self, tier: Tier) -> Budget {
-        Budget { cases_per_lane: if tier == Tier::Quick { 1500 } else { 40_000 }, tape_max: 300, cpu_s: 10 }
+        Budget { cases_per_lane: if tier == Tier::Quick { 7500 } else { 40_000 }, tape_max: 300, cpu_s: 10 }
     }
     fn spaces(&self, _tier: Tier) -> Vec<Space> {
         vec![Space { name: "every accessor row x 8 prior states".into(), size: ROWS.len() as u64 * 8, exhaustive: true }]
